@@ -14,12 +14,21 @@ From stdpp Require Import gmap.
 Theorem C06_inv_init : forall lower, Inv lower init.
 Proof. exact inv_init. Qed.
 
-(** A font loaded from a well-formed tree satisfies it. *)
+(** A loaded font satisfies it.  Loading itself checks (fixes 83f6c18, afd801a, 8d15b4b, 59e280a)
+    that layer names and directories are unique, that only "glyphs" is called public.default and
+    that directories and glif names are plain and unique — comparing EXACTLY; [wf_disk] is what it
+    does not check: directories, and glif names within a layer, that are equal ignoring case. *)
 Theorem C06_inv_loaded : forall lower d s, wf_disk lower d -> load lower d = Some s -> Inv lower s.
 Proof. exact inv_loaded. Qed.
-(** ... loading itself does not check: duplicate layer names load (known finding). *)
-Theorem C06_loaded_refuted : exists s, load ascii_lower bad_disk = Some s /\ ~ Inv ascii_lower s.
-Proof. exact load_unchecked_refuted. Qed.
+(** ... without it: a tree with duplicate layer names is refused, but one with two directories
+    that differ only by case loads, violates the invariant, and after [remove] + [new_layer] a
+    directory is assigned twice and saving fails (known finding load-case-clash). *)
+Theorem C06_loaded_refuted :
+  load ascii_lower dup_disk = None /\
+  exists s, load ascii_lower clash_disk = Some s /\ ~ Inv ascii_lower s /\
+    exists s2, run ascii_is_upper ascii_lower s [RemoveLayer nB; NewLayer nA] = Some s2 /\
+               (step ascii_is_upper ascii_lower s2 SaveLoad).2 = OErr SaveErr.
+Proof. exact load_case_clash_refuted. Qed.
 
 (** Every operation preserves it, except raw [Layer::entry] access that changes the glyph map. *)
 Definition C06_full : Prop :=
@@ -54,10 +63,25 @@ Theorem C06_error_is_noop : forall is_upper lower s o e,
   (step is_upper lower s o).2 = OErr e -> (step is_upper lower s o).1 = s.
 Proof. exact error_is_noop. Qed.
 
-(** Saving and loading a font that satisfies the invariant succeeds and yields exactly its
-    layers (names, order, directories, glyph names, file names): nothing dropped, nothing phantom. *)
-Theorem C06_save_load_exact : forall lower s, Inv lower s ->
-  exists d, save s = SOk d /\ exists s', load lower d = Some s' /\ layers s' = layers s /\ Inv lower s'.
+(** File names and directories are single plain path components: initially, after loading, and
+    after every operation (needed below: loading refuses anything else). *)
+Theorem C06_plain_init : Plain init.
+Proof. exact plain_init. Qed.
+Theorem C06_plain_loaded : forall lower d s, load lower d = Some s -> Plain s.
+Proof. exact plain_loaded. Qed.
+Theorem C06_plain_step : forall is_upper lower s o,
+  Inv lower s -> Plain s -> Plain (step is_upper lower s o).1.
+Proof. exact plain_step. Qed.
+Theorem C06_reachable_plain : forall is_upper lower ops s s',
+  Inv lower s -> Plain s -> clean is_upper lower s ops -> run is_upper lower s ops = Some s' ->
+  Inv lower s' /\ Plain s'.
+Proof. exact reachable_plain. Qed.
+
+(** Saving and loading a font that satisfies the invariant (and whose names are plain) succeeds
+    and yields exactly its layers (names, order, directories, glyph names, file names): nothing
+    dropped, nothing phantom. *)
+Theorem C06_save_load_exact : forall lower s, Inv lower s -> Plain s ->
+  exists d, save s = SOk d /\ exists s', load lower d = Some s' /\ layers s' = layers s /\ Inv lower s' /\ Plain s'.
 Proof. exact save_load_exact. Qed.
 
 (** The only panics an operation can raise on a consistent font are the documented 99-tries
